@@ -66,14 +66,16 @@ class Handshake:
         self.version: Optional[bytes] = None
         for name, value in headers:
             name = name.lower()
+            # Several header lines are equivalent to a single comma
+            # separated list (RFC 6455 section 11.3.4)
             if name == b"connection":
-                self.connection_tokens = split_comma_header(value)
+                self.connection_tokens = (self.connection_tokens or []) + split_comma_header(value)
             elif name == b"sec-websocket-extensions":
-                self.extensions = split_comma_header(value)
+                self.extensions = (self.extensions or []) + split_comma_header(value)
             elif name == b"sec-websocket-key":
                 self.key = value
             elif name == b"sec-websocket-protocol":
-                self.subprotocols = split_comma_header(value)
+                self.subprotocols = (self.subprotocols or []) + split_comma_header(value)
             elif name == b"sec-websocket-version":
                 self.version = value
             elif name == b"upgrade":
